@@ -204,6 +204,66 @@ def p_ctrl_mid(op, L, fin):
     cover("mid-" + ("bad" if bad else "ok"))
 
 
+def p_reconnect(lost):
+    """connection 1 ends (EOF) after a non-final fragment or inside a frame; connect() again on the SAME object; the first frame
+    of the new connection is judged as the first frame of a connection: continuation rejected, text/binary accepted"""
+    quiet_logging()
+    Proto, Payload, Closed = _excs()
+    from .c03 import HandshakeSock
+    import websocket._handshake as HS
+    from .common import FakeOs
+    if lost == "between-fragments":
+        first = server_frame(0, 1, b"ab")
+    elif lost == "inside-frame":
+        first = bytes([0x81, 5]) + b"ab"
+    else:  # inside the second fragment
+        first = server_frame(0, 2, b"ab") + bytes([0x00, 4, 0x61])
+    b0 = sx.sym_int("b0", 8)
+    fin, opcode = b0 >> 7, b0 & 15
+    sx.assume(sx.And((b0 >> 4) & 7 == 0, opcode <= 2))
+    real_os = HS.os._real if isinstance(HS.os, FakeOs) else HS.os
+    HS.os = FakeOs(real_os, lambda k: bytes(range(k)))
+    try:
+        ws = new_ws(None)
+        ws.connect("ws://example.test/a", socket=HandshakeSock(first, []))
+        try:
+            ws.recv_data()
+            sx.require(False, "incomplete message delivered", lost=lost)
+            return
+        except Closed:
+            pass
+        if sx.choice("close-between", 2):
+            ws.close()
+        ws.connect("ws://example.test/a", socket=HandshakeSock(sx.cat(sx.to_bytes_be(b0, 1), bytes([2]), b"xy"), []))
+        out = None
+        try:
+            out = ws.recv_data()
+            res = "ok"
+        except Proto:
+            res = "proto"
+        except Closed:
+            res = "closed"
+        except (sx.Control, sx.ConcreteFailure, sx.ReplayMismatch):
+            raise
+        except Exception as e:
+            sx.require(False, "receive on the re-connected object raised %s" % type(e).__name__, lost=lost)
+            return
+    finally:
+        HS.os = real_os
+    if opcode == 0:
+        sx.require(res == "proto", "a continuation frame first on a NEW connection of the same object is rejected (no message is in progress)",
+                   lost=lost, got=res)
+        cover("re-rejected")
+    elif fin == 1:
+        sx.require(res == "ok", "a text/binary frame first on a new connection of the same object is accepted", lost=lost, got=res)
+        if res == "ok":
+            sx.require(sx.And(out[0] == opcode, out[1] == b"xy"), "and delivered with its own opcode and payload only", lost=lost)
+        cover("re-accepted")
+    else:
+        sx.require(res == "closed", "a non-final first fragment on a new connection waits for more (then end of stream)", lost=lost, got=res)
+        cover("re-waiting")
+
+
 def obligations(tier):
     thorough = tier == "thorough"
     first = [dict(L=L, form=7) for L in (0, 1, 2, 3, 125)] + [dict(L=L, form=16) for L in (0, 2, 125, 126, 300)] + \
@@ -229,4 +289,9 @@ def obligations(tier):
                    kernel=["continuous_frame.validate", "continuous_frame.add", "is_fire", "extract", "recv_data_frame"]),
         Obligation("P-mid", p_ctrl_mid, mid, bounds="close/ping/pong with L in {0,1,2,125,126}, FIN 0/1 between two fragments of a message",
                    must_cover=["mid-bad", "mid-ok"], kernel=["ABNF.validate", "recv_data_frame"]),
+        Obligation("P-reconnect", p_reconnect, [dict(lost=l) for l in ("between-fragments", "inside-frame", "inside-second-fragment")],
+                   bounds="connection lost (end of stream) after a non-final fragment / inside a frame / inside a second fragment, connect() "
+                          "again on the same object with or without close() in between (solver choice); first frame of the new connection: "
+                          "opcode {cont,text,binary} x FIN symbolic", must_cover=["re-rejected", "re-accepted", "re-waiting"],
+                   kernel=["WebSocket.connect", "WebSocket._recv", "frame_buffer", "continuous_frame.validate"]),
     ]
